@@ -28,7 +28,7 @@ pub struct Action {
     /// true: the (constant) template is handed straight to Compiler::compile instead of resolve_tx
     pub direct: bool,
     /// resolved against this store instead of the model's (what an address holds changes between resolutions)
-    pub own_store: Option<usize>,
+    pub own_store: Option<Vec<Utxo>>,
 }
 
 fn outputs_src(n: usize, min_utxo_of: Option<usize>) -> String {
@@ -119,8 +119,8 @@ pub fn actions() -> Vec<Action> {
     // the same address held something else when an earlier resolution looked (and failed / succeeded) there
     let mut poor2 = args.clone();
     poor2.insert("q".into(), ArgValue::Int(900_000_000_000));
-    v.push(Action { name: "fails-input-not-resolved@other-store", tx: lower(&outputs_src(2, None)), args: poor2, direct: false, own_store: Some(3) });
-    v.push(Action { name: "2-outputs@other-store", tx: lower(&outputs_src(2, None)), args: args.clone(), direct: false, own_store: Some(3) });
+    v.push(Action { name: "fails-input-not-resolved@other-store", tx: lower(&outputs_src(2, None)), args: poor2, direct: false, own_store: Some(store(3)) });
+    v.push(Action { name: "2-outputs@other-store", tx: lower(&outputs_src(2, None)), args: args.clone(), direct: false, own_store: Some(store(3)) });
     // scripts of each Plutus version with a redeemer: the script data hash is made from the language's cost model
     for version in 1..=3u8 {
         let src = format!(
@@ -130,6 +130,19 @@ pub fn actions() -> Vec<Action> {
         );
         let name: &'static str = ["mint-guarded-by-plutus-v1", "mint-guarded-by-plutus-v2", "mint-guarded-by-plutus-v3"][version as usize - 1];
         v.push(Action { name, tx: lower(&src), args: args.clone(), direct: false, own_store: None });
+    }
+    // one template, two witness scripts of one length: the bodies are byte-identical, the witness sets are not
+    {
+        let src = format!(
+            "party S;\nparty R;\ntx t(q: Int, script: Bytes) {{\n    input src {{\n        from: S,\n        min_amount: fees + Ada(q),\n    }}\n    mint {{\n        amount: AnyAsset(0x{}, \"T\", 1),\n    }}\n    output o0 {{\n        to: S,\n        amount: src - fees + AnyAsset(0x{}, \"T\", 1),\n    }}\n    cardano::native_witness {{\n        script: script,\n    }}\n}}\n",
+            "c2".repeat(28),
+            "c2".repeat(28)
+        );
+        for (name, script) in [("mint-with-native-script-A", vec![0x82u8, 0x01, 0x81, 0x82, 0x04, 0x00]), ("mint-with-native-script-B", vec![0x82, 0x01, 0x81, 0x82, 0x04, 0x01])] {
+            let mut a = args.clone();
+            a.insert("script".into(), ArgValue::Bytes(script));
+            v.push(Action { name, tx: lower(&src), args: a, direct: false, own_store: None });
+        }
     }
     // the instance may also have been used to compile constant templates directly
     let constant = crate::gen::tirgen::place(5, tir::Expression::None);
@@ -217,8 +230,8 @@ fn resolve(c: &mut Compiler, a: &Action, utxos: &[Utxo]) -> Out {
             Err(p) => Out::Panic(p.signature()),
         };
     }
-    let st = MemStore::new(match a.own_store {
-        Some(k) => store(k),
+    let st = MemStore::new(match &a.own_store {
+        Some(own) => own.clone(),
         None => utxos.to_vec(),
     });
     match panics::catch(|| pollster::block_on(tx3_resolver::resolve_tx(AnyTir::V1Beta0(a.tx.clone()), &a.args, c, &st, 10))) {
@@ -245,9 +258,19 @@ fn replay(history: &[usize], acts: &[Action], utxos: &[Utxo], pp: &PP) -> Compil
 
 fn run_model(store_ix: usize, pp_ix: usize, depth: usize) -> Outcome {
     let mut o = Outcome::default();
-    let acts = actions();
+    let mut acts = actions();
     let utxos = store(store_ix);
     let pp = pp(pp_ix);
+    // a wallet that covers the two-output payment and its own fee with 100 lovelace to spare: a resolution that starts
+    // from anything but a clean slate (a fee remembered from a costlier transaction) does not find it sufficient
+    {
+        let two = acts.iter().position(|a| a.name == "2-outputs").expect("action");
+        if let Out::Ok { fee, .. } = on_own_thread(|| resolve(&mut compiler(&pp), &acts[two], &store(1))) {
+            let wallet = vec![tirb::utxo(UtxoRef { txid: vec![0x15; 32], index: 2 }, &base_address(1, 0), CanonicalAssets::from_naked_amount(2_000_000 + fee as i128 + 100))];
+            let a = Action { name: "2-outputs@wallet-that-just-covers-it", tx: acts[two].tx.clone(), args: acts[two].args.clone(), direct: false, own_store: Some(wallet) };
+            acts.push(a);
+        }
+    }
     // fresh outcomes (must be reproducible, otherwise the target is excluded: that would be C10's matter)
     let mut fresh: Vec<Option<Out>> = vec![];
     for a in &acts {
@@ -340,8 +363,8 @@ impl Prop for C20 {
         format!(
             "explicit-state breadth-first search whose transition function is the implementation: state = history of resolutions replayed on a fresh \
              tx3_cardano::Compiler, state key = bytes of Compiler.latest_tx_body (the other fields are asserted unchanged at every transition); alphabet of \
-             22 actions (20 resolutions (templates with 0, 1, 2, 5 outputs, min_utxo of the first / last output, one failing in reduce, one with InputNotResolved, one \
-             failing in compile, a 1000-byte datum, min_utxo in a threshold, four templates whose arguments (and inputs) were applied upstream and that arrive with an empty argument map, two that look at the same address when it holds another UTxO, a guarded mint under each Plutus version); 2 direct Compiler::compile calls on constant templates); depth {} ; 3 stores (ample, huge, tight) x 3 protocol-parameter sets (separate models). In every state every action is resolved on a replica \
+             25 actions (23 resolutions (templates with 0, 1, 2, 5 outputs, min_utxo of the first / last output, one failing in reduce, one with InputNotResolved, one \
+             failing in compile, a 1000-byte datum, min_utxo in a threshold, four templates whose arguments (and inputs) were applied upstream and that arrive with an empty argument map, two that look at the same address when it holds another UTxO, a guarded mint under each Plutus version, one mint template with two native scripts of one length (identical bodies, different witness sets), a payment from a wallet that covers it with 100 lovelace to spare); 2 direct Compiler::compile calls on constant templates); depth {} ; 3 stores (ample, huge, tight) x 3 protocol-parameter sets (separate models). In every state every action is resolved on a replica \
              and its outcome (payload, hash, fee | error kind | panic) compared with the outcome on a fresh instance (itself reproduced 3 times). Each evaluation (history + target) runs on a thread of its own, so per-thread state leaks from a history into its target only. Every \
              transition executes the real resolve_tx, so model and implementation cannot diverge.",
             if tier.is_thorough() { 4 } else { 3 }
